@@ -162,6 +162,10 @@ func (parser *syslogParser) Parse(input []byte, timestamp time.Time) *base.LogRe
 	if len(remaining) > defs.InputLogMaxMessageBytes {
 		parser.onOverflow(input)
 		remaining = remaining[:defs.InputLogMaxMessageBytes]
+		// the cut may fall inside a multi-byte character
+		remaining = util.StringFromBytes(
+			util.CleanUTF8(util.BytesFromString(remaining)),
+		)
 	}
 	if record.RawLength >= defs.InputLogMaxRecordBytes {
 		remaining = util.StringFromBytes(
